@@ -62,6 +62,7 @@ func execNode(t *testing.T, job vx.Job) (res vx.Result) {
 
 func runNode(events []string, props []string, args map[string]string) (res vx.Result) {
 	w := newWorld()
+	w.exclKey = nodeKey
 	n := newNode(w, nodeKey, "n")
 	s := &sys{w: w, eng: n, st: &n.st.stores, rhr: n.rhr}
 	s.sm.acted = map[string]bool{}
